@@ -40,6 +40,7 @@ func (db *DB) NewBatch(options BatchOptions) *Batch {
 		panic(fmt.Sprintf("snowflake.NewNode(1) failed: %v", err))
 	}
 	batch.batchID = node.Generate()
+	verifBatch(uint64(batch.batchID))
 	return batch
 }
 
